@@ -4,6 +4,8 @@ MODULES = {
     # name -> where the package under test lives in /repo and which harness directory is overlaid into it
     "rueidis": {"dir": ".", "harness": "rueidis"},
     "rueidiscompat": {"dir": "rueidiscompat", "harness": "rueidiscompat", "package": "rueidiscompat"},
+    "rueidisaside": {"dir": "rueidisaside", "harness": "rueidisaside", "package": "rueidisaside"},
+    "rueidisprob": {"dir": "rueidisprob", "harness": "rueidisprob", "package": "rueidisprob"},
 }
 
 REAL = ("all of package github.com/redis/rueidis built from /repo's working tree with -tags verif "
@@ -555,6 +557,90 @@ CHECKS = {
         "components": {"real": REAL, "stubs": STUBS},
         "assumptions": ["a failing io.Writer alone does not count as 'could not be consumed completely': the rest of that reply is discarded and the connection stays usable"],
     },
+    "C35": {
+        "level": "exploration",
+        "rule": ("one run = one seeded plan: a configuration (expected items, false-positive rate) drawn from typical values and from the edges of what "
+                 "NewBloomFilter accepts (rates from 5e-324 to the largest double below 1, 1 .. 4e9 items, bitmaps up to the 2^32-bit limit, filters of one bit; "
+                 "rejected configurations are counted, not judged), 1-2 rueidis clients with one BloomFilter object each on the same key, 2-5 tasks issuing "
+                 "Add/AddMulti/Exists/ExistsMulti/Count (Reset/Delete in 30% of the plans) with item lists that mix added and never-added items at seeded "
+                 "positions; a SCRIPT FLUSH by another client (NOSCRIPT fallback); in 35% of the plans one connection fault (reset, eof, executed-but-unanswered, "
+                 "eof inside a reply, or a stall of 0.2-30 s) placed while traffic is in flight. The real Go code runs against the model, which executes the "
+                 "Lua scripts the client sends (lualite) on a sparse bitmap. oracle: an Exists/ExistsMulti that was started after an Add/AddMulti of the item "
+                 "had returned nil, with no Reset/Delete that can have taken effect in between, reports the item present, one answer per key in key order; "
+                 "of two non-overlapping Count calls with no Reset/Delete in between the later is not smaller. An add that returned an error is not an add; a "
+                 "query that returned an error is judged only in plans without a fault. non-trivial = at least one answer judged; distinct = "
+                 "distinct event-log hash"),
+        "parts": [
+            {"module": "rueidisprob", "scenario": "bloom", "quick": 5000, "thorough": 250000},
+        ],
+        "expected_probes": ["configuration-accepted", "configuration-rejected", "add-and-query-by-different-tasks", "add-and-query-by-different-clients",
+                            "multi-answer-mixes-present-and-absent", "noscript-after-script-flush", "reset-or-delete-near-query", "count-positive",
+                            "hash-functions>=300", "bitmap-beyond-2^31-bits"],
+        "components": {"real": "package github.com/redis/rueidis/rueidisprob (sizing, murmur3 indexes, argument building, result aggregation, its Lua scripts as sent) and "
+                               "github.com/redis/rueidis built from /repo's working tree with -tags verif",
+                       "stubs": dict(STUBS, **{"lua": "verifsim/lualite interprets the scripts the client sends", "bitmaps": "verifsim/fakeredis cmd_prob.go: sparse pages, whole 2^32-bit range"})},
+        "assumptions": [
+            "fakeredis (BITFIELD/BITFIELD_RO u1 GET/SET, INCRBY, SET, DEL, GET, EVAL/EVALSHA(_RO), SCRIPT FLUSH) and lualite are correct; both have unit tests, including the shipped scripts as fixtures",
+            "the quantifier over configurations and histories is sampled, not enumerated; memory stays small because bitmaps are sparse (64-byte pages), the log of sub-commands is the largest structure (<= ~30 MB in runs with ~1000 hash functions)",
+            "a Reset/Delete that failed or never returned is assumed to be able to take effect at any later time",
+            "restrictions that keep runs a function of their seed (each was found by the determinism self-test): one multiplexed wire per client (with several, rueidis draws the wire from util.FastRand, which the verif seam serves from one shared counter); a retry delay without jitter (same reason); one fault per plan (a second one can hit the replacement connection inside its HELLO handshake, where a polling clean-up goroutine decides when the waiting caller gets on); no socket send-buffer limit; no call deadlines (see next item)",
+            "call deadlines are exercised only by the unregistered variant 'deadline' (-verif.variant=deadline): rueidisprob passes rueidis.BinaryString views of a pooled buffer as arguments and returns the buffer (zeroed) to its sync.Pool when the call returns, so a command still queued when its caller's context ends is written later with zeroed or reused arguments; what is then on the wire depends on sync.Pool and does not replay. The variant reports it as rule arguments-changed-after-return",
+            "the number of hash functions and the bitmap size are read from the filter object for labels and probes only; no verdict depends on them",
+        ],
+    },
+    "C36": {
+        "level": "exploration",
+        "rule": ("one run = one seeded plan on a counting Bloom filter (configurations as for C35 plus sizes up to 2^63 counters, since this constructor has no upper "
+                 "limit): 2-5 tasks issuing Add/AddMulti/Remove/RemoveMulti/Exists/ExistsMulti/ItemMinCount/ItemMinCountMulti on 1-2 clients, SCRIPT FLUSH ghost, "
+                 "faults as for C35. Every task removes only what its own earlier successful adds cover (per-task ledger, decided at run time), so "
+                 "every removal reaching the server is paired with an earlier completed add whatever the interleaving. oracle (part 1): with L = adds of x "
+                 "returned before the query started minus removals of x started before the query returned, L > 0 implies Exists reports x present and "
+                 "ItemMinCount >= L, per key in order. oracle (both parts): the model's command log is replayed on the filter's hash: no HINCRBY leaves a counter "
+                 "below zero, and every execution of the removal script changes the hash by exactly the complete decrements of some subset of the items it was "
+                 "given, keeping all counters >= 0 - so an item whose removal would go negative changes nothing. part 2 (variant impossible) also removes items "
+                 "never added and items more often than added (tiny filters in half of the plans so that counters are shared); presence is not judged there. "
+                 "non-trivial = at least one query judged with L > 0, or one removal that would go negative observed; distinct = distinct event-log hash"),
+        "parts": [
+            {"module": "rueidisprob", "scenario": "cbloom", "quick": 3000, "thorough": 200000},
+            {"module": "rueidisprob", "scenario": "cbloom", "variant": "impossible", "quick": 2000, "thorough": 100000},
+        ],
+        "expected_probes": ["configuration-accepted", "configuration-rejected", "add-and-query-by-different-tasks", "multiplicity>1", "noscript-after-script-flush",
+                            "removal-that-would-go-negative", "removal-call-mixes-possible-and-impossible", "hash-functions>=300"],
+        "components": {"real": "package github.com/redis/rueidis/rueidisprob and github.com/redis/rueidis built from /repo's working tree with -tags verif",
+                       "stubs": dict(STUBS, **{"lua": "verifsim/lualite interprets the scripts the client sends"})},
+        "assumptions": [
+            "fakeredis (HINCRBY, HGET, HMGET, INCRBY, DECRBY, EVAL/EVALSHA) and lualite are correct; the shipped removal script is a unit-test fixture of the model",
+            "the property does not say that a possible removal must take effect, nor anything about Count or Delete: not demanded",
+            "restrictions that keep runs a function of their seed (each was found by the determinism self-test): one multiplexed wire per client (with several, rueidis draws the wire from util.FastRand, which the verif seam serves from one shared counter); a retry delay without jitter (same reason); one fault per plan (a second one can hit the replacement connection inside its HELLO handshake, where a polling clean-up goroutine decides when the waiting caller gets on); no socket send-buffer limit; no call deadlines (see next item)",
+            "call deadlines are exercised only by the unregistered variant 'deadline' (-verif.variant=deadline): rueidisprob passes rueidis.BinaryString views of a pooled buffer as arguments and returns the buffer (zeroed) to its sync.Pool when the call returns, so a command still queued when its caller's context ends is written later with zeroed or reused arguments; what is then on the wire depends on sync.Pool and does not replay. The variant reports it as rule arguments-changed-after-return",
+            "with zero hash functions (accepted by the constructor for rates above ~0.71) Remove is not issued: the shipped script would loop forever in Lua 5.1 (zero loop step); the model would report its step budget as a harness gap",
+            "the removal script is recognised by the SHA-1 / text of the package's own script constant; its items are the consecutive ARGV groups of the size the client sent",
+        ],
+    },
+    "C37": {
+        "level": "exploration",
+        "rule": ("one run = one seeded plan on a sliding-window Bloom filter: configurations as for C35, windows of 1 s .. 1 h including odd numbers of milli- and "
+                 "microseconds, a constant server clock offset, 2-5 tasks issuing Add/AddMulti/Exists/ExistsMulti (Reset/Delete in 20% of the plans) on 1-2 clients; "
+                 "the scheduler advances the fake clock in steps of window/100 .. window/2 - 1.5 ms (and 0.1 / 1 ms) between and inside calls, half of the plans have a watcher task that adds one item and keeps asking about it, so rotations (an expiring lock key "
+                 "in the model) race with adds and queries; SCRIPT FLUSH ghost, faults as for C35. oracle: an Exists/ExistsMulti that was started "
+                 "after an Add/AddMulti of the item had returned nil and that returned before start(add) + window/2 - 1 ms of fake time reports the item present, per key "
+                 "in order, absent a Reset/Delete that can have taken effect in between (sound for any server-side instants: the add took effect no earlier than "
+                 "its start, the query was evaluated no later than its return). non-trivial = at least one answer judged; distinct = distinct event-log hash"),
+        "parts": [
+            {"module": "rueidisprob", "scenario": "sbloom", "quick": 5000, "thorough": 250000},
+        ],
+        "expected_probes": ["configuration-accepted", "configuration-rejected", "rotated", "rotated>2", "judged-across-a-rotation", "judged-in-last-quarter-of-half-window",
+                            "added-item-reported-absent-after-its-window", "add-and-query-by-different-clients", "noscript-after-script-flush"],
+        "components": {"real": "package github.com/redis/rueidis/rueidisprob and github.com/redis/rueidis built from /repo's working tree with -tags verif",
+                       "stubs": dict(STUBS, **{"lua": "verifsim/lualite interprets the scripts the client sends", "bitmaps": "verifsim/fakeredis cmd_prob.go"})},
+        "assumptions": [
+            "fakeredis (TIME, SET PX NX with expiry on the simulated clock, RENAME, MSET, EXISTS, BITFIELD) and lualite are correct; the shipped add script is a unit-test fixture of the model",
+            "the clock is the fake clock of the run; client and server share it up to a constant offset (clock jumps are outside the property)",
+            "restrictions that keep runs a function of their seed (each was found by the determinism self-test): one multiplexed wire per client (with several, rueidis draws the wire from util.FastRand, which the verif seam serves from one shared counter); a retry delay without jitter (same reason); one fault per plan (a second one can hit the replacement connection inside its HELLO handshake, where a polling clean-up goroutine decides when the waiting caller gets on); no socket send-buffer limit; no call deadlines (see next item)",
+            "call deadlines are exercised only by the unregistered variant 'deadline' (-verif.variant=deadline): rueidisprob passes rueidis.BinaryString views of a pooled buffer as arguments and returns the buffer (zeroed) to its sync.Pool when the call returns, so a command still queued when its caller's context ends is written later with zeroed or reused arguments; what is then on the wire depends on sync.Pool and does not replay. The variant reports it as rule arguments-changed-after-return",
+            "window/2 is half of the Duration passed to the constructor; the last millisecond before the boundary is not judged (resolution of a Redis clock and of PX; the model itself keeps nanoseconds)",
+        ],
+    },
     "C41": {
         "level": "exploration",
         "rule": ("plans: 1-4 tasks, each 1-3 Pipeline / TxPipeline / Watch+TxPipeline sessions of the go-redis adapter on one shared client, 1-6 queued "
@@ -613,6 +699,59 @@ CHECKS = {
             "(seed 424365, 6 of 96 repetitions under load). Source: the clean-up loop of a dead pipe (one fake millisecond per turn) races with the exit of that pipe's writer "
             "goroutine, so a caller of a connection that was reset during its HELLO is released at T or T+1 ms and one idle tick appears or not before the next lock grant; "
             "verdicts did not differ. No barrier was added here (the scheduler-level Settle barrier is to be switched on for this scenario by the lead)",
+        ],
+    },
+    "C39": {
+        "level": "exploration",
+        "rule": ("plans: 2-3 real CacheAsideClients (each with its own rueidis client on one pipelined connection; lock variant per client: plain SET NX GET PX or the "
+                 "UseLuaLock script, mixed within a run; ClientTTL 1/2/4 s) share one simulated Redis; 2-8 tasks issue 1-4 calls each: Get (plain or through "
+                 "TypedCacheAsideClient) on 1-3 shared keys with TTLs of 2-8 s of fake time and a loader that returns a value unique to the invocation (instantly, or after "
+                 "50 ms..2.5 s of fake time, optionally with OverrideCacheTTL) or fails with a unique error, and Del; the environment: ghost SET / DEL of the data keys, "
+                 "a placeholder left by a process that never existed, SCRIPT FLUSH, reply cuts at any byte, connection faults (reset, EOF, reset after the server executed, "
+                 "EOF mid-reply), and the silent death of one client (nothing moves on its connections any more in either direction and nobody is told, its dials are "
+                 "refused, its tasks are abandoned, no Close) - in 70% of those plans at a moment when its placeholder is stored under a data key; in half of the runs fake "
+                 "time only advances when nothing else can happen (tight clock). The package's three Lua scripts execute in fakeredis + lualite. After the workload every "
+                 "fault is healed, max(ClientTTL) of fake time passes, and every live client issues one fresh Get per key (probe). "
+                 "Oracle, from the results of all Gets, the record of all loader invocations and the model's history of every key (value after each modification, writer, "
+                 "step, fake time): (1) no Get returns, with a nil error, a value carrying PlaceholderPrefix; (2) every value returned with a nil error was produced by a "
+                 "loader invocation for that key, or stored under that key by the ghost writer, before the Get returned; (3) load once: every loader invocation is covered by "
+                 "a lock acquisition of its own client on that key made during its Get and not needed by another invocation - one that is not, and runs while another "
+                 "holder's placeholder is in place, that holder alive (liveness key present, client not killed) and loading itself, is a violation; and (tight clock only) two "
+                 "loaders for one key never run at the same time because a client removed the placeholder of a holder that never lost a connection and was not killed; "
+                 "(4) a Get does not give up with its context error, without having run its loader, on a healthy client, when for the last 3 s of fake time before that the "
+                 "key was not locked by a live holder (it held a value, nothing, or a placeholder whose liveness key did not exist): waiters get the loaded result, and a dead "
+                 "client's lock (liveness key lapsed by ClientTTL in the model) is taken over; every probe Get succeeds; (5) a Get that returns its loader's error on a healthy "
+                 "client has removed its placeholder by the time it returns; (6) every Get of a client that was not killed returns. "
+                 "non-trivial = two Gets of different clients on one key overlapped in time and a loader ran, or a waiter returned another call's loaded value; "
+                 "distinct = distinct SHA-256 of the event log"),
+        "parts": [
+            {"module": "rueidisaside", "scenario": "aside", "quick": 4000, "thorough": 240000},
+            {"module": "rueidisaside", "scenario": "aside", "variant": "calm", "quick": 1500, "thorough": 80000},
+        ],
+        "expected_probes": ["gets-of-two-clients-overlapped", "waiter-on-another-client-got-the-result", "waiter-on-same-client-got-the-result",
+                            "client-died-holding-a-lock", "dead-clients-lock-released-by-another-client", "foreign-placeholder-removed", "loader-failed",
+                            "lua-lock-client", "setnx-lock-client", "two-loaders-ran-concurrently-for-one-key", "get-gave-up-waiting", "script-flush-planned"],
+        "components": {"real": "packages github.com/redis/rueidis/rueidisaside (aside.go, typed_aside.go, its Lua scripts) and github.com/redis/rueidis built from /repo's working tree with -tags verif",
+                       "stubs": dict(STUBS, **{"Lua interpreter": "verifsim/lualite inside fakeredis (EVAL / EVALSHA / SCRIPT FLUSH)",
+                                               "math/rand (client ids)": "global source seeded per run by the driver; draws serialised by the scheduler (see assumptions)"})},
+        "assumptions": [
+            "client ids come from the global math/rand source (aside.go randStr), not from the seeded util seam: the driver seeds it per run, and the scenario gives every client a "
+            "rueidis.Client wrapper (public ClientBuilder option) that parks the caller after a DoCache miss on a data key and after the reply to a SET of a liveness key, so that "
+            "concurrent draws and the choice of the winning id are scheduler decisions; the wrapper also names the calling task on the context.Background() calls the package "
+            "makes (lock release), a value-only context with a nil Done channel",
+            "one pipelined connection per client (PipelineMultiplex -1) and a jitter-free RetryDelay: with several wires rueidis picks the wire through util.FastRand, whose seeded seam "
+            "hands out values by a global counter, and the liveness refreshes of several clients fire in the same fake instant",
+            "'alive' in rule 3 means: the client was not killed and, for the first half, its liveness key exists in the model; the second half (a live holder is never taken for dead) is "
+            "judged only in tight-clock runs and only for holders that never lost a connection, because otherwise a refresh delayed by the scheduler by ClientTTL/2 is a legitimate lapse",
+            "the 3 s in rule 4 is a scheduling allowance of this harness (a handful of round trips, each delayable by a few ticks of at most 300 ms), not a constant of the implementation; "
+            "Gets with a TTL below 3 s are therefore never judged by rule 4",
+            "external removal of a lock (ghost DEL / SET, Del by a caller, the placeholder's own TTL running out under a slow loader) legitimately lets a second loader run: such "
+            "pairs are counted as not judged",
+            "a Get whose context ends between the server executing its lock acquisition and the reply leaves a placeholder of a live holder until its TTL; the property does not "
+            "speak about it: probes that meet a live holder's placeholder are not judged",
+            "freshness of returned values (client-side caching may serve a value until its invalidation arrives) and the setkey ownership check (a late loader must not overwrite a "
+            "newer lock) are outside the property as stated: a setkey without the comparison is not detected",
+            "loaders ignore their context (a select between a timer and ctx.Done() that become ready in the same fake instant would be resolved by the Go runtime)",
         ],
     },
 }
